@@ -614,9 +614,13 @@ func (exec *Executor) executeDecimalMethod(
 		}
 	}
 
-	// Round to the scale.
+	// Round to the scale. When num*ratio overflows, num is too large to have
+	// digits beyond the scale and rounding leaves it unchanged.
 	ratio := math.Pow10(scale)
-	rounded := math.Round(num*ratio) / ratio
+	rounded := num
+	if scaled := num * ratio; !math.IsInf(scaled, 0) || math.IsInf(ratio, 0) {
+		rounded = math.Round(scaled) / ratio
+	}
 
 	// Count the digits before the decimal point.
 	numStr := strconv.FormatFloat(rounded, 'f', -1, 64)
